@@ -314,7 +314,8 @@ class Project:
 # strings that the iso language accepts (BMP, no quote/backslash/backtick/line break) but that are
 # hostile to the printers downstream (JS string literal, GraphQL text, alias generation)
 HOSTILE_STRINGS = ["it's", "a b", "a_b", "a-b", "\u00e9", "\u65e5\u672c", "semi;colon", "$dollar", "{brace}", "",
-                   "x" * 30, "*/ end", "<!--", "a'b'c", "#hash", "per%cent", "q?x=1&y=2", "new line n", "\u2028sep"]
+                   "x" * 30, "*/ end", "<!--", "a'b'c", "#hash", "per%cent", "q?x=1&y=2", "new line n", "\u2028sep",
+                   "two  spaces", "tab\there", " lead and trail "]
 HOSTILE_DESCS = ["plain description", "ends comment */ here", "/* opens", "back`tick", "${interp}", 'has "quotes"',
                  "line one\nline two", "unicode \u2028 sep", "trailing backslash \\", "it's"]
 # C12 argument hazard pools (iso string literals are raw: no quote, backslash, backtick or line break inside)
